@@ -115,7 +115,9 @@ func checkBitList(t TB, c BLCase) (words int, crossed bool, setAfterAppend bool)
 	if c.New < 0 {
 		bl = new(utils.BitList)
 	} else {
-		bl = utils.NewBitList(c.New)
+		if pv := try(func() { bl = utils.NewBitList(c.New) }); pv != nil {
+			fail(-1, "NewBitList(%d): %v", c.New, pv)
+		}
 		model = make([]bool, c.New)
 	}
 	startWords := (len(model) + 31) / 32
@@ -124,7 +126,10 @@ func checkBitList(t TB, c BLCase) (words int, crossed bool, setAfterAppend bool)
 			fail(step, "Len()=%d, model %d", bl.Len(), len(model))
 		}
 		want := packModel(model)
-		got := bl.GetBytes()
+		var got []byte
+		if pv := try(func() { got = bl.GetBytes() }); pv != nil {
+			fail(step, "GetBytes: %v", pv)
+		}
 		if len(got) != len(want) {
 			fail(step, "GetBytes length %d, model %d", len(got), len(want))
 		}
@@ -134,29 +139,69 @@ func checkBitList(t TB, c BLCase) (words int, crossed bool, setAfterAppend bool)
 			}
 		}
 		if full {
-			for i, b := range model {
-				if bl.GetBit(i) != b {
-					fail(step, "GetBit(%d)=%v, model %v", i, !b, b)
+			bad := -1
+			if pv := try(func() {
+				for i, b := range model {
+					if bl.GetBit(i) != b {
+						bad = i
+						return
+					}
 				}
+			}); pv != nil {
+				fail(step, "GetBit sweep: %v", pv)
+			}
+			if bad >= 0 {
+				fail(step, "GetBit(%d)=%v, model %v", bad, !model[bad], model[bad])
 			}
 		}
 	}
 	compare(-1, true)
 	appended := false
 	for step, op := range c.Ops {
+		var getGot, getWant bool
+		var iterGot []byte
+		pv := try(func() {
+			switch op.Op {
+			case "addbit":
+				bl.AddBit(op.Bit)
+			case "addbits":
+				bl.AddBits(int(op.V), byte(op.N))
+			case "addbyte":
+				bl.AddByte(byte(op.V))
+			case "bulk":
+				bits := make([]bool, op.N)
+				for i := range bits {
+					bits[i] = patBit(op.V, i)
+				}
+				bl.AddBit(bits...)
+			case "set":
+				if len(model) > 0 {
+					bl.SetBit(blIndex(op, len(model)), op.Bit)
+				}
+			case "get":
+				if len(model) > 0 {
+					i := int(op.V % int64(len(model)))
+					getGot, getWant = bl.GetBit(i), model[i]
+				}
+			case "iter":
+				for b := range bl.IterateBytes() {
+					iterGot = append(iterGot, b)
+				}
+			}
+		})
+		if pv != nil {
+			fail(step, "%s: %v", op.Op, pv)
+		}
 		switch op.Op {
 		case "addbit":
-			bl.AddBit(op.Bit)
 			model = append(model, op.Bit)
 			appended = true
 		case "addbits":
-			bl.AddBits(int(op.V), byte(op.N))
 			for i := op.N - 1; i >= 0; i-- {
 				model = append(model, (uint64(op.V)>>uint(i))&1 == 1)
 			}
 			appended = appended || op.N > 0
 		case "addbyte":
-			bl.AddByte(byte(op.V))
 			for i := 7; i >= 0; i-- {
 				model = append(model, (byte(op.V)>>uint(i))&1 == 1)
 			}
@@ -166,20 +211,13 @@ func checkBitList(t TB, c BLCase) (words int, crossed bool, setAfterAppend bool)
 			for i := range bits {
 				bits[i] = patBit(op.V, i)
 			}
-			bl.AddBit(bits...)
 			model = append(model, bits...)
 			appended = appended || op.N > 0
 		case "set":
 			if len(model) == 0 {
 				continue
 			}
-			i := int(op.V % int64(len(model)))
-			// bias towards the edges: word boundaries and the last bits
-			if op.V%5 == 0 {
-				i = len(model) - 1 - int(op.V/5)%min(len(model), 40)
-			}
-			bl.SetBit(i, op.Bit)
-			model[i] = op.Bit
+			model[blIndex(op, len(model))] = op.Bit
 			if appended {
 				setAfterAppend = true
 			}
@@ -187,18 +225,14 @@ func checkBitList(t TB, c BLCase) (words int, crossed bool, setAfterAppend bool)
 			if len(model) == 0 {
 				continue
 			}
-			i := int(op.V % int64(len(model)))
-			if bl.GetBit(i) != model[i] {
-				fail(step, "GetBit(%d)=%v, model %v", i, !model[i], model[i])
+			if getGot != getWant {
+				fail(step, "GetBit(%d)=%v, model %v", int(op.V%int64(len(model))), getGot, getWant)
 			}
 		case "bytes":
 			// compared below
 		case "iter":
 			want := packModel(model)
-			var got []byte
-			for b := range bl.IterateBytes() {
-				got = append(got, b)
-			}
+			got := iterGot
 			if len(got) != len(want) {
 				fail(step, "IterateBytes yielded %d bytes, model %d", len(got), len(want))
 			}
@@ -215,20 +249,36 @@ func checkBitList(t TB, c BLCase) (words int, crossed bool, setAfterAppend bool)
 	compare(len(c.Ops), true)
 	// channel view == slice view at the end, always
 	want := packModel(model)
-	i := 0
-	for b := range bl.IterateBytes() {
-		if i >= len(want) || b != want[i] {
-			fail(len(c.Ops), "final IterateBytes[%d]=%#02x differs from model", i, b)
+	var final []byte
+	if pv := try(func() {
+		for b := range bl.IterateBytes() {
+			final = append(final, b)
 		}
-		i++
+	}); pv != nil {
+		fail(len(c.Ops), "final IterateBytes: %v", pv)
 	}
-	if i != len(want) {
-		fail(len(c.Ops), "final IterateBytes yielded %d bytes, model %d", i, len(want))
+	if string(final) != string(want) {
+		fail(len(c.Ops), "final IterateBytes yielded % x, model % x", trunc(final), trunc(want))
 	}
 	endWords := (len(model) + 31) / 32
 	// a growth step was crossed if the list grew past its initial allocation
 	crossed = endWords > startWords && len(model) > 0
 	return endWords, crossed, setAfterAppend
+}
+
+// blIndex maps the raw drawn index of a set op to a valid index, biased to the last bits.
+func blIndex(op BLOp, n int) int {
+	if op.V%5 == 0 {
+		return n - 1 - int(op.V/5)%min(n, 40)
+	}
+	return int(op.V % int64(n))
+}
+
+func trunc(b []byte) []byte {
+	if len(b) > 40 {
+		return b[:40]
+	}
+	return b
 }
 
 func init() {
